@@ -155,3 +155,28 @@ def molecules():
                 m.set_pbc(pbc)
                 out.append(("%s.box%g.%s" % (name, box, "".join("T" if b else "F" for b in pbc)), m))
     return out
+
+
+def unit_cells():
+    """Primitive / conventional unit cells given as they are (1-8 atoms, fully periodic): layered and ordinary bulk crystals."""
+    from ase import Atoms as A
+    from ase.build import bulk, mx2
+
+    out = []
+    a, c = 2.46, 6.70
+    hexcell = [[a, 0, 0], [-a / 2, a * np.sqrt(3) / 2, 0], [0, 0, c]]
+    out.append(("graphite.AB", A("C4", scaled_positions=[[0, 0, 0], [1 / 3, 2 / 3, 0], [0, 0, 0.5], [2 / 3, 1 / 3, 0.5]], cell=hexcell, pbc=True)))
+    aa = [[a, 0, 0], [-a / 2, a * np.sqrt(3) / 2, 0], [0, 0, 3.35]]
+    out.append(("graphite.AA", A("C2", scaled_positions=[[0, 0, 0], [1 / 3, 2 / 3, 0]], cell=aa, pbc=True)))
+    out.append(("hBN.AA", A("BN", scaled_positions=[[0, 0, 0], [1 / 3, 2 / 3, 0]], cell=[[2.5, 0, 0], [-1.25, 2.5 * np.sqrt(3) / 2, 0], [0, 0, 3.33]], pbc=True)))
+    m = mx2("MoS2", kind="2H", a=3.18, thickness=3.19, vacuum=None)
+    cc = np.array(m.get_cell())
+    cc[2] = [0, 0, 6.15]
+    m.set_cell(cc)
+    m.set_pbc(True)
+    out.append(("MoS2.AA", m))
+    for sym, kw in (("Cu", {}), ("Mg", {}), ("Si", {}), ("Fe", {})):
+        out.append((sym + ".prim", bulk(sym, **kw)))
+    out.append(("NaCl.prim", bulk("NaCl", "rocksalt", a=5.64)))
+    out.append(("Cu.cubic", bulk("Cu", cubic=True)))
+    return out
